@@ -336,7 +336,7 @@ def check_malformed(chk, cases):
         replay = {'stream': 'D', 'kind': kind, 'hex': data.hex()}
         chk.case(replay)
         if G.bomb_screen(data):
-            chk.count('D:not run: uint >= 2^26 in a byte-string slot (BstrField.m2i would allocate that many octets)')
+            chk.count('D:not run: uint >= 2^17 in a byte-string slot (BstrField.m2i would allocate that many octets)')
             continue
         try:
             back = R['Bundle'](data)
